@@ -158,6 +158,17 @@ int main()
                     firstt = false;
                     times += t;
                 }
+                else if (c[0] == 'E')
+                {
+                    // an expression evaluated the way the preprocessor evaluates __EVAL(..): E<ok>:<hex value>:<state>:<t0>-<t1>:<events>
+                    long long t0 = vh::g_clock_ns / 1000;
+                    bool ok = false;
+                    auto v = vm.rt->evaluate_expression(unhex(c.substr(1)), ok);
+                    long long t1 = vh::g_clock_ns / 1000;
+                    std::string t;
+                    obs += std::string("E") + (ok ? "1" : "0") + ":" + hex(ok && !v.empty() ? v.to_string_sqf() : std::string()) + ":" + std::to_string(vm.state()) + ":"
+                         + std::to_string(t0) + "-" + std::to_string(t1) + ":" + events(vm, t);
+                }
                 else if (c[0] == 'A')
                 {
                     int r = (int)vm.rt->execute(sqf::runtime::runtime::action::abort);
